@@ -47,6 +47,7 @@ CHECKS['C16'] = dict(
               [dict(tu='c16_otsu', group=g, bounds=_c16_q_otsu, shards=1) for g in ('otsu_rgb8', 'otsu_rgb16')] +
               [dict(tu='c16_morph_median', group='morph', bounds=dict(PB=9, PT=6, PM=6, SE5=0), shards=4),
                dict(tu='c16_morph_median', group='morph_rgb8', bounds=dict(PC=3), shards=1),
+               dict(tu='c16_morph_median', group='morph_signed', bounds=dict(PS=6, VS=3), shards=4),
                dict(tu='c16_morph_median', group='median', bounds=dict(PMED=9, KMAX=5), shards=4),
                dict(tu='c16_morph_median', group='median_rgb8', bounds=dict(PCM=2), shards=1)],
         thorough=[dict(tu='c16_threshold', group=g, shards=2) for g in ('thr_u8', 'thr_s8', 'thr_rgb8')] +
@@ -56,6 +57,7 @@ CHECKS['C16'] = dict(
                  [dict(tu='c16_otsu', group=g, bounds=_c16_t_otsu, shards=4) for g in ('otsu_rgb8', 'otsu_rgb16')] +
                  [dict(tu='c16_morph_median', group='morph', bounds=dict(PB=12, PT=8, PM=8, SE5=1), shards=48),
                   dict(tu='c16_morph_median', group='morph_rgb8', bounds=dict(PC=4), shards=6),
+                  dict(tu='c16_morph_median', group='morph_signed', bounds=dict(PS=8, VS=3), shards=16),
                   dict(tu='c16_morph_median', group='median', bounds=dict(PMED=10, KMAX=7), shards=24),
                   dict(tu='c16_morph_median', group='median_rgb8', bounds=dict(PCM=3), shards=4)]),
     witnesses_required=dict(all=[
@@ -68,7 +70,7 @@ CHECKS['C16'] = dict(
         'otsu_constant_image', 'otsu_empty_image',
         'morph_se3', 'morph_se5', 'morph_dilate_changes_image', 'morph_erode_changes_image', 'morph_opening_changes_image',
         'morph_second_iteration_differs', 'morph_idempotence_checked', 'morph_monotone_pairs_checked',
-        'morph_non_square_image', 'morph_empty_image', 'morph_rgb8_channels',
+        'morph_non_square_image', 'morph_empty_image', 'morph_rgb8_channels', 'morph_gray8s', 'morph_gray16s', 'morph_gray16',
         'median_k1', 'median_k3', 'median_k5', 'median_window_wider_than_image', 'median_changes_image',
         'median_rgb8_channels'] + (['thr_float32_t_channel'] if _C16_FLOAT32_T_CHANNEL_COMPILES else [])),
     deadline=dict(quick=300, thorough=2400),
